@@ -243,8 +243,13 @@ def element_parsing(
 
         # Handle chords
         elif isinstance(element, tuple):
-            quarter_duration = 4 / total_duration_values[i]
-            duration_divs = ceil(quarter_duration * divs_pq)
+            if total_duration_values[i] == 0:
+                duration_divs = symbolic_to_numeric_duration(
+                    element[1][-1].symbolic_duration, divs_pq
+                )
+            else:
+                quarter_duration = 4 / total_duration_values[i]
+                duration_divs = ceil(quarter_duration * divs_pq)
             el_end = current_tl_pos + duration_divs
             for note in element[1]:
                 part.add(note, start=current_tl_pos, end=el_end)
@@ -381,7 +386,7 @@ def load_kern(
         elements, lines = parser.parse(spline)
         # Calculate unique durations and ensure they are integers
         unique_durs = np.unique(parser.total_duration_values)
-        unique_durs = unique_durs[np.isfinite(unique_durs)]
+        unique_durs = unique_durs[np.isfinite(unique_durs) & (unique_durs > 0)]
         d_mul = 2
         while not np.all(np.isclose(unique_durs % 1, 0.0)):
             unique_durs *= d_mul
